@@ -60,6 +60,14 @@ CHECKS = {
          'for k<=3, n<=4(5) the returned formulas for a few real seeds are checked structurally and semantically (sampling over seeds, exhaustive over sizes).',
          'Trusted: RNG stub contract, CrossHair accounting, z3. Outside: draw sequences longer than the tape bound, all seeds.',
          'DESIGN.md section 3 C13'),
+ 'C06': ('CrossHair/z3-accounted exhaustive walk of formula shapes, header/name texts and menu-built input texts through the real DIMACS writer and reader, against an independent strict reader',
+         'Bounded exhaustive verification (enumerative mode): every formula shape and unusual header/name text of the stated menus round-trips; every text of <=3 (thorough 4) lines from a 20-line menu is read exactly as the strict reader reads it or rejected with ValueError.',
+         'Trusted: the independent strict reader as the meaning of a DIMACS text; CrossHair accounting. Outside: texts beyond the menus, exotic integer tokens.',
+         'DESIGN.md section 3 C06'),
+ 'C12': ('CrossHair/z3-accounted exhaustive walk of menu-built CNF/OPB formulas through the real OPB and LaTeX writers, against an independent strict OPB reader and a LaTeX row reader',
+         'Bounded exhaustive verification (enumerative mode): every formula of <=2 (thorough 3) rows from the menus x label formats x flags renders to text that the independent readers map back to exactly the in-memory rows; page splits and format guessing checked on their finite tables.',
+         'Trusted: the two readers written for the check; CrossHair accounting. Outside: >3 terms, TeX validity of exotic names.',
+         'DESIGN.md section 3 C12'),
 }
 NA = {}
 
